@@ -6,21 +6,44 @@ use crate::{
 };
 
 use async_trait::async_trait;
-use crossbeam_queue::SegQueue;
 use futures::channel::mpsc;
 use futures::SinkExt;
 use parking_lot::Mutex;
 
+use std::collections::VecDeque;
 use std::sync::Arc;
 
 pub(crate) struct Peer {
     pub(crate) send_queue: ZmqFramedWrite,
 }
 
+/// The rotation of the round-robin senders: a FIFO of peer identities in which an identity is
+/// queued at most once. An identity can outlive its connection here (a peer that went away is
+/// only skipped when its turn comes); if that peer re-joins meanwhile it takes over the entry
+/// instead of getting a second one, so no peer ever has more than one turn per round.
+pub(crate) struct RoundRobin(Mutex<VecDeque<PeerIdentity>>);
+
+impl RoundRobin {
+    pub(crate) fn new() -> Self {
+        Self(Mutex::new(VecDeque::new()))
+    }
+
+    pub(crate) fn push(&self, peer_id: PeerIdentity) {
+        let mut queue = self.0.lock();
+        if !queue.contains(&peer_id) {
+            queue.push_back(peer_id);
+        }
+    }
+
+    pub(crate) fn pop(&self) -> Option<PeerIdentity> {
+        self.0.lock().pop_front()
+    }
+}
+
 /// Puts a peer taken from the round-robin queue back when dropped, so that a send which is
 /// abandoned while it waits for the connection does not remove the peer from the rotation.
 struct Requeue<'a> {
-    queue: &'a SegQueue<PeerIdentity>,
+    queue: &'a RoundRobin,
     peer_id: Option<PeerIdentity>,
 }
 
@@ -35,7 +58,7 @@ impl Drop for Requeue<'_> {
 pub(crate) struct GenericSocketBackend {
     pub(crate) peers: scc::HashMap<PeerIdentity, Peer>,
     fair_queue_inner: Option<Arc<Mutex<QueueInner<ZmqFramedRead, PeerIdentity>>>>,
-    pub(crate) round_robin: SegQueue<PeerIdentity>,
+    pub(crate) round_robin: RoundRobin,
     socket_type: SocketType,
     socket_options: SocketOptions,
     pub(crate) socket_monitor: Mutex<Option<mpsc::Sender<SocketEvent>>>,
@@ -50,7 +73,7 @@ impl GenericSocketBackend {
         Self {
             peers: scc::HashMap::new(),
             fair_queue_inner,
-            round_robin: SegQueue::new(),
+            round_robin: RoundRobin::new(),
             socket_type,
             socket_options: options,
             socket_monitor: Mutex::new(None),
